@@ -42,7 +42,18 @@ class P(Prop):
             if n >= 2 and rng.random() < 0.3:
                 i = rng.randrange(n - 1)
                 sg[i + 1][1:] = sg[i][1:]
-            out.append(dict(op="pw_derivative", ty=ty, segs=sg, meta={"class": "piecewise"}))
+            cls = "piecewise"
+            if n >= 2 and rng.random() < 0.25:
+                # breakpoints in arbitrary order: differentiation may not reorder, merge or drop pieces whatever the ends are
+                perm = list(range(n))
+                rng.shuffle(perm)
+                ends_ = [sg[j][0] for j in perm]
+                for j in range(n):
+                    sg[j][0] = ends_[j]
+                cls = "piecewise/unordered_ends"
+            out.append(dict(op="pw_derivative", ty=ty, segs=sg, meta={"class": cls}))
+        for ty in ("Poly0", "Poly3", "Poly8"):
+            out.append(dict(op="pw_derivative", ty=ty, segs=[], meta={"class": "piecewise/empty"}))
         return out
 
     def coq_term(self, case, h):
